@@ -59,11 +59,38 @@ def intended(text):
     return [v] if isinstance(v, (int, float)) else list(v)
 
 
+def has_negative(text):
+    """exact (rational) reading of the decimals in the text: is any intended distance negative?  (The float oracle above can
+    produce -1e-16 for the end point of a descending linspace whose stop is 0.0; numpy returns the stop exactly.  That was a
+    false alarm of this check in the thorough tier, fixed here; DESIGN 12.4.)"""
+    import ast
+    from fractions import Fraction as Fr
+    fr = lambda v: Fr(str(v))
+    t = text.strip()
+    if "linspace" in t:
+        args = ast.literal_eval(t[t.index("("):])
+        a, b = fr(args[0]), fr(args[1])
+        n = args[2] if len(args) > 2 else 50
+        vals = [a] if n == 1 else [a + k * (b - a) / (n - 1) for k in range(n)]
+    elif "range" in t:
+        args = ast.literal_eval(t[t.index("("):])
+        if not isinstance(args, tuple):
+            args = (args,)
+        lo, hi, st = (0, args[0], 1) if len(args) == 1 else (args[0], args[1], 1) if len(args) == 2 else args
+        lo, hi, st = fr(lo), fr(hi), fr(st)
+        n = max(0, math.ceil((hi - lo) / st))
+        vals = [lo + k * st for k in range(n)]
+    else:
+        v = ast.literal_eval(t)
+        vals = [fr(v)] if isinstance(v, (int, float)) else [fr(x) for x in v]
+    return any(v < 0 for v in vals)
+
+
 def evaluate(case):
     from molgri.space.translations import TranslationParser, get_increments, get_between_radii
     text = case["text"]
     want = intended(text)
-    neg = any(v < 0 for v in want)
+    neg = has_negative(text)
     try:
         with quiet():
             tp = TranslationParser(text)
